@@ -77,6 +77,7 @@ from vgi_rpc.rpc import (  # noqa: E402
 
 CALLS: list[tuple[str, str]] = []  # the implementation's own invocation log (module global: stream state is rebuilt per request)
 ARROW = "application/vnd.apache.arrow.stream"
+_SINK = __import__("io").StringIO()  # Falcon writes unhandled-exception traces to wsgi.errors
 _OUT = pa.schema([("x", pa.int64())])
 
 
@@ -344,7 +345,7 @@ def send(h: dict[str, Any], cfg: dict[str, Any], verb: str, path: str, cred: str
             b = body
     if more_headers:
         headers.update({k: v for k, v in more_headers.items() if k.lower() != "x-cred"})
-    r = h["client"].simulate_request(verb, path, headers=headers, body=b)
+    r = h["client"].simulate_request(verb, path, headers=headers, body=b, wsgierrors=_SINK)
     described = verb == "POST" and r.status_code == 200 and path.endswith("/__describe__")
     return {"status": r.status_code, "calls": sorted(set(CALLS)), "auth_called": bool(h["alog"].paths),
             "rejected": h["alog"].rejected > 0, "described": described}
